@@ -12,6 +12,9 @@ static NEXT_POOL: AtomicUsize = AtomicUsize::new(1);
 pub static MODEL_REVERSE: std::sync::atomic::AtomicBool = std::sync::atomic::AtomicBool::new(false);
 /// Number of `install` calls, `join` regions and `for_each` regions opened so far.
 pub static N_INSTALL: AtomicUsize = AtomicUsize::new(0);
+/// Worker count reported by `current_num_threads` (harnesses may make it a solver variable).
+pub static MODEL_NUM_THREADS: AtomicUsize = AtomicUsize::new(16);
+pub fn current_num_threads() -> usize { MODEL_NUM_THREADS.load(SeqCst) }
 
 pub fn model_position() -> (usize, usize, usize) { (CUR_REGION.load(SeqCst), CUR_JOB.load(SeqCst), IN_POOL.load(SeqCst)) }
 
@@ -53,6 +56,7 @@ impl ThreadPool {
         self.install(|| join(a, b))
     }
     pub fn spawn<OP>(&self, op: OP) where OP: FnOnce() + Send + 'static { self.install(op) }
+    pub fn current_num_threads(&self) -> usize { MODEL_NUM_THREADS.load(SeqCst) }
     pub fn current_thread_index(&self) -> Option<usize> { if IN_POOL.load(SeqCst) == self.id { Some(0) } else { None } }
 }
 pub fn join<A, B, RA, RB>(a: A, b: B) -> (RA, RB)
@@ -69,21 +73,26 @@ where A: FnOnce() -> RA + Send, B: FnOnce() -> RB + Send, RA: Send, RB: Send {
     }
 }
 pub mod iter {
-    pub struct ParIterMut<'data, T: Send> { pub(crate) slice: &'data mut [T] }
+    /// `min_len`: rayon never splits below this many consecutive items, i.e. such items share one job.
+    pub struct ParIterMut<'data, T: Send> { pub(crate) slice: &'data mut [T], pub(crate) min_len: usize }
+    impl<'data, T: Send> ParIterMut<'data, T> {
+        pub fn with_min_len(mut self, n: usize) -> Self { self.min_len = if n == 0 { 1 } else { n }; self }
+        pub fn with_max_len(self, _n: usize) -> Self { self }
+    }
     pub trait IntoParallelRefMutIterator<'data> { type Item: Send + 'data; fn par_iter_mut(&'data mut self) -> ParIterMut<'data, Self::Item>; }
-    impl<'data, T: Send + 'data> IntoParallelRefMutIterator<'data> for [T] { type Item = T; fn par_iter_mut(&'data mut self) -> ParIterMut<'data, T> { ParIterMut { slice: self } } }
-    impl<'data, T: Send + 'data> IntoParallelRefMutIterator<'data> for Vec<T> { type Item = T; fn par_iter_mut(&'data mut self) -> ParIterMut<'data, T> { ParIterMut { slice: self } } }
+    impl<'data, T: Send + 'data> IntoParallelRefMutIterator<'data> for [T] { type Item = T; fn par_iter_mut(&'data mut self) -> ParIterMut<'data, T> { ParIterMut { slice: self, min_len: 1 } } }
+    impl<'data, T: Send + 'data> IntoParallelRefMutIterator<'data> for Vec<T> { type Item = T; fn par_iter_mut(&'data mut self) -> ParIterMut<'data, T> { ParIterMut { slice: self, min_len: 1 } } }
     pub trait ParallelIterator: Sized { type Item; fn for_each<OP>(self, op: OP) where OP: Fn(Self::Item) + Sync + Send; }
     impl<'data, T: Send + 'data> ParallelIterator for ParIterMut<'data, T> {
         type Item = &'data mut T;
         fn for_each<OP>(self, op: OP) where OP: Fn(&'data mut T) + Sync + Send {
             let region = crate::NEXT_REGION.fetch_add(1, std::sync::atomic::Ordering::SeqCst);
             if crate::MODEL_REVERSE.load(std::sync::atomic::Ordering::SeqCst) {
-                let mut job = self.slice.len();
-                for x in self.slice.iter_mut().rev() { job -= 1; crate::with_job(region, job, || op(x)); }
+                let mut i = self.slice.len();
+                for x in self.slice.iter_mut().rev() { i -= 1; crate::with_job(region, i / self.min_len, || op(x)); }
             } else {
-                let mut job = 0;
-                for x in self.slice.iter_mut() { crate::with_job(region, job, || op(x)); job += 1; }
+                let mut i = 0;
+                for x in self.slice.iter_mut() { crate::with_job(region, i / self.min_len, || op(x)); i += 1; }
             }
         }
     }
